@@ -302,8 +302,8 @@ inline constexpr void Conversion<Unit::Power, Unit::Power::InchPoundPerSecond>::
 }
 
 template <typename NumericType>
-inline const std::map<Unit::Power, std::function<void(NumericType* values, const std::size_t size)>>
-    MapOfConversionsFromStandard<Unit::Power, NumericType>{
+inline constexpr auto MapOfConversionsFromStandard<Unit::Power, NumericType>{
+  MakeConversionTable<Unit::Power, NumericType>({
       {Unit::Power::Watt,               Conversions<Unit::Power, Unit::Power::Watt>::FromStandard<NumericType>              },
       {Unit::Power::Milliwatt,
        Conversions<Unit::Power,                                  Unit::Power::Milliwatt>::FromStandard<NumericType>         },
@@ -321,12 +321,12 @@ inline const std::map<Unit::Power, std::function<void(NumericType* values, const
        Conversions<Unit::Power,                                  Unit::Power::FootPoundPerSecond>::FromStandard<NumericType>},
       {Unit::Power::InchPoundPerSecond,
        Conversions<Unit::Power,                                  Unit::Power::InchPoundPerSecond>::FromStandard<NumericType>},
+})
 };
 
 template <typename NumericType>
-inline const std::
-    map<Unit::Power, std::function<void(NumericType* const values, const std::size_t size)>>
-        MapOfConversionsToStandard<Unit::Power, NumericType>{
+inline constexpr auto MapOfConversionsToStandard<Unit::Power, NumericType>{
+  MakeConversionTable<Unit::Power, NumericType>({
           {Unit::Power::Watt,               Conversions<Unit::Power, Unit::Power::Watt>::ToStandard<NumericType>              },
           {Unit::Power::Milliwatt,
            Conversions<Unit::Power,                                  Unit::Power::Milliwatt>::ToStandard<NumericType>         },
@@ -344,6 +344,7 @@ inline const std::
            Conversions<Unit::Power,                                  Unit::Power::FootPoundPerSecond>::ToStandard<NumericType>},
           {Unit::Power::InchPoundPerSecond,
            Conversions<Unit::Power,                                  Unit::Power::InchPoundPerSecond>::ToStandard<NumericType>},
+})
 };
 
 }  // namespace Internal
